@@ -148,7 +148,7 @@ func execDeadlines(t *testing.T, plan any, out *Outcome) {
 		}
 		judged++
 		end := rec.EndAt
-		if !rec.Done {
+		if !rec.Done || rec.Hung {
 			end = time.Now()
 			if !end.After(limit) {
 				return // the run ended before the bound: not judged
